@@ -4,7 +4,15 @@ use crate::actor::*;
 use crossbeam_utils::thread;
 use std::collections::HashMap;
 use std::fmt::Debug;
+#[cfg(getong_stateright_verif)]
+use crate::verif::rt::{Instant, UdpSocket};
+#[cfg(getong_stateright_verif)]
+use std::net::{Ipv4Addr, SocketAddr, SocketAddrV4};
+#[cfg(not(getong_stateright_verif))]
 use std::net::{Ipv4Addr, SocketAddr, SocketAddrV4, UdpSocket};
+#[cfg(getong_stateright_verif)]
+use std::time::Duration;
+#[cfg(not(getong_stateright_verif))]
 use std::time::{Duration, Instant};
 
 impl From<Id> for SocketAddrV4 {
